@@ -155,7 +155,7 @@ PROPS = {
         "level_note": "Trusted base: the construction argument for each edit kind (harness/rvmon/src/rg/mutate.rs) and the base "
                       "program compiling. Sampled base programs; every edit kind at every site up to a per-kind bound.",
         "technique": "mutation of typed ASTs into by-construction ill-typed programs; accept/reject + error-kind monitor",
-        "rule": "base programs from rotogen (scalar, aggregate and effects profiles) that compile; 44 edit kinds incl. retargeted match arms and ten out-of-scope-across-sibling-scopes kinds with well-typed controls (type mismatch "
+        "rule": "base programs from rotogen (scalar, aggregate and effects profiles) that compile; 45 edit kinds incl. retargeted match arms and ten out-of-scope-across-sibling-scopes kinds with well-typed controls (type mismatch "
                 "at 8 kinds of typed position, argument count, unknown name, missing/duplicate/unknown field, non-exhaustive "
                 "match, arm after default, negated unsigned, arithmetic on bool, ordering on char, % on floats, ? outside an "
                 "Option function, redeclaration, accept in fn, return in const, assignment to constant/function, recursive "
